@@ -252,6 +252,90 @@ def key_cells():
     return cells
 
 
+def dtls_records(data):
+    """[(content type, epoch)] of the DTLS records in one datagram."""
+    out, i = [], 0
+    while i + 13 <= len(data):
+        ln = int.from_bytes(data[i + 11:i + 13], "big")
+        out.append((data[i], int.from_bytes(data[i + 3:i + 5], "big")))
+        i += 13 + ln
+    return out
+
+
+async def eager_case(cell, rng, out, swap_ice):
+    """An eager peer: it is the DTLS server, so it is connected one flight before the client; it sends application data at
+    once and the network delivers that record in the same datagram as the server's last handshake flight (records of one
+    flight and of the next epoch may share a datagram).  The client under observation holds the fingerprint list `cell`:
+    whatever it delivers must be delivered while it is 'connected', and nothing at all when the list does not verify."""
+    from aiortc.rtcdtlstransport import RTCDtlsParameters
+    from vt.rigs.dtls import DtlsPair
+
+    ice_roles = ("controlled", "controlling") if swap_ice else ("controlling", "controlled")
+    pair = DtlsPair(ice_roles=ice_roles)
+    srv = 1 if swap_ice else 0   # role auto: the controlling side is the DTLS server
+    cli = 1 - srv
+    try:
+        algs, classes = cell
+        styles = [rng.choice(["upper", "lower", "mixed"]) for _ in algs]
+        extra = [rng.choice(UNSUPPORTED)] if not algs else []
+        claim = build_list(pair.fingerprints(srv), algs, classes, styles, extra, rng)
+        desc = {"kind": "eager-server", "client_list": {"algs": list(algs), "classes": list(classes), "styles": styles, "unsupported": extra},
+                "server_is_side": srv}
+        held = []
+        stats = {"coalesced": 0, "records": None}
+
+        def hold(data):
+            recs = dtls_records(data)
+            if any(t == 20 for t, _ in recs):
+                held.append(data)          # the last flight: ChangeCipherSpec + Finished
+                return None
+            if held and recs and recs[0][0] == 23:
+                data = b"".join(held) + data
+                stats["coalesced"] += 1
+                stats["records"] = dtls_records(data)
+                held.clear()
+            return data
+
+        pair.ice[srv].mutate = hold
+        payload = b"EAGER-" + rng.randbytes(8).hex().encode()
+
+        async def server():
+            await pair.t[srv].start(RTCDtlsParameters(fingerprints=pair.fingerprints(cli)))
+            if pair.t[srv].state == "connected":
+                await pair.t[srv]._send_data(payload)
+
+        async def client():
+            await pair.t[cli].start(RTCDtlsParameters(fingerprints=claim))
+
+        try:
+            await asyncio.wait_for(asyncio.gather(server(), client()), 10)
+        except asyncio.TimeoutError:
+            out.inconclusive = "eager-server handshake did not finish within 10 s"
+            return
+        out.counters["handshakes"] += 1
+        await pair.settle()
+        if not stats["coalesced"]:
+            out.counters["eager_not_coalesced"] += 1
+            return
+        out.counters["eager_coalesced_datagrams"] += 1
+        want = predicate(algs, classes)
+        stub = pair.stubs[cli]
+        state = pair.t[cli].state
+        d = desc | {"client_state": state, "datagram_records": stats["records"], "delivered": [x[:20] for x in stub.data]}
+        if stub.early:
+            out.fail("delivery-before-connected", f"the client handed over {stub.early[:3]} before it had checked the peer's certificate "
+                     f"(application data record in the datagram that completes the handshake); it ended {state}", d)
+        if not want and (stub.data or stub.rtp or stub.rtcp):
+            out.fail("failed-side-delivers", f"the client's list does not verify the server, yet it delivered {len(stub.data)} data messages", d)
+        if state == "connected" and not want:
+            out.fail("connected-to-unverified-peer", "the client is 'connected' although its fingerprint list does not verify the peer", d)
+        if want and state != "connected":
+            out.fail("verified-peer-rejected", f"the list verifies the server, the client is {state}", d)
+        out.distinct(("eager", cell, swap_ice))
+    finally:
+        await pair.close()
+
+
 def plan(tier):
     if tier == "thorough":
         return dict(cases=4800, shards=16, timeout=3000, min_nontrivial=500, case_alarm=300)
@@ -283,6 +367,8 @@ def run_case(index, rng, tier):
                     else:
                         await identity_case(other, cell, rng, out, unsupported=rng.random() < 0.3)
             out.counters["kind_identity"] += 1
+            for cell in rng.sample(cells, 2 if tier == "quick" else 6) + [cells[0]]:
+                await eager_case(cell, rng, out, swap_ice=rng.random() < 0.5)
         else:
             cells = key_cells()
             k = index // 2
